@@ -534,6 +534,17 @@ impl Wal {
         broadcast use axiom_question_mark;
 //@end
 
+//@fn Wal::checkpoint from=wal ret=r props=C15
+//@requires
+        old(self).sequence < u64::MAX,
+//@ensures
+        final(self).sequence == old(self).sequence + 1,      //#the_marker_takes_the_next_sequence
+        final(self).path == old(self).path,      //#frame
+        r is Ok ==> final(self).current_file is None,      //#ok_closes_the_segment
+//@atstart
+        broadcast use axiom_question_mark;
+//@end
+
 //@fn Wal::replay from=wal ret=r props=C15
 //@replace "mut callback: F" => "callback: &mut F" :: the FnMut consumer is taken by value and its effect lives in what it captured; passed by &mut so that the contract can speak of what it was handed
 //@replace "F: FnMut(&WalEntry) -> WalResult<()>," => "F: WalSink," :: same: the consumer as a trait with a ghost record of the entries it was handed
@@ -649,6 +660,118 @@ impl Wal {
 
 /// the bytes append writes for a record
 pub open spec fn frame(r: WalRecord) -> Seq<u8> { le4_bytes(bincode::ser(r).len() as u32) + bincode::ser(r) }
+/// a record append can write and replay will accept: it serialises, to fewer than 2^32 bytes (the length prefix is a
+/// u32: A-WAL-4G), and carries the checksum of its entry
+pub open spec fn storable(r: WalRecord) -> bool { bincode::ser_ok(r) && r.intact() && bincode::ser(r).len() <= u32::MAX }
+pub open spec fn all_storable(rs: Seq<WalRecord>) -> bool { forall|i: int| 0 <= i < rs.len() ==> storable(#[trigger] rs[i]) }
+/// a segment as a sequence of appends leaves it
+pub open spec fn frames(rs: Seq<WalRecord>) -> Seq<u8>
+    decreases rs.len()
+{ if rs.len() == 0 { Seq::empty() } else { frame(rs[0]) + frames(rs.skip(1)) } }
+
+pub proof fn lemma_frame_head(r: WalRecord, rest: Seq<u8>)
+    requires storable(r)
+    ensures ({
+        let b = frame(r) + rest; let n = bincode::ser(r).len() as int;
+        &&& frame(r).len() == 4 + n
+        &&& le4(b.subrange(0, 4)) == n
+        &&& b.subrange(4, 4 + n) == bincode::ser(r)
+        &&& b.subrange(4 + n, b.len() as int) == rest })
+{
+    let n = bincode::ser(r).len() as int;
+    axiom_le4_bytes(n as u32);
+    let b = frame(r) + rest;
+    assert(b.subrange(0, 4) =~= le4_bytes(n as u32));
+    assert(b.subrange(4, 4 + n) =~= bincode::ser(r));
+    assert(b.subrange(4 + n, b.len() as int) =~= rest);
+}
+pub proof fn lemma_frames_push(rs: Seq<WalRecord>, r: WalRecord)
+    ensures frames(rs.push(r)) == frames(rs) + frame(r)
+    decreases rs.len()
+{
+    if rs.len() == 0 {
+        assert(rs.push(r).skip(1) =~= Seq::<WalRecord>::empty());
+        assert(rs.push(r)[0] == r);
+        assert(frames(Seq::<WalRecord>::empty()) =~= Seq::<u8>::empty());
+        assert(frames(rs.push(r).skip(1)) =~= Seq::<u8>::empty());
+        assert(frames(rs.push(r)) =~= frame(r) + Seq::<u8>::empty());
+        assert(frames(rs) + frame(r) =~= frame(r));
+        assert(frame(r) + Seq::<u8>::empty() =~= frame(r));
+    } else {
+        assert(rs.push(r).skip(1) =~= rs.skip(1).push(r));
+        assert(rs.push(r)[0] == rs[0]);
+        lemma_frames_push(rs.skip(1), r);
+        assert(frame(rs[0]) + (frames(rs.skip(1)) + frame(r)) =~= (frame(rs[0]) + frames(rs.skip(1))) + frame(r));
+    }
+}
+/// C15, first half: what a sequence of acknowledged appends left in a segment is replayed record for record, in order
+pub proof fn theorem_replay_reads_what_append_wrote(rs: Seq<WalRecord>)
+    requires all_storable(rs)
+    ensures parse(frames(rs)) == (rs, End::Clean)
+    decreases rs.len()
+{
+    if rs.len() == 0 {
+    } else {
+        let r = rs[0];
+        let rest = frames(rs.skip(1));
+        assert(storable(rs[0]));
+        lemma_frame_head(r, rest);
+        bincode::axiom_roundtrip(r);
+        assert(all_storable(rs.skip(1))) by { assert forall|i: int| 0 <= i < rs.skip(1).len() implies storable(#[trigger] rs.skip(1)[i]) by { assert(rs.skip(1)[i] == rs[i + 1]); } }
+        theorem_replay_reads_what_append_wrote(rs.skip(1));
+        assert(seq![r] + rs.skip(1) =~= rs);
+    }
+}
+/// C15, second half: cut the segment at ANY byte (a crash tears the last write): replay sees exactly the records that
+/// are complete before the cut -- j of them, the cut lying inside (or right before) record j -- and ends cleanly
+pub proof fn theorem_torn_tail_is_end_of_log(rs: Seq<WalRecord>, k: int) -> (j: int)
+    requires all_storable(rs), 0 <= k <= frames(rs).len()
+    ensures
+        0 <= j <= rs.len(),
+        parse(frames(rs).take(k)) == (rs.take(j), End::Clean),
+        frames(rs.take(j)).len() <= k,
+        j < rs.len() ==> k < frames(rs.take(j + 1)).len(),
+    decreases rs.len()
+{
+    if rs.len() == 0 {
+        assert(rs.take(0) =~= rs);
+        0
+    } else {
+        let r = rs[0];
+        let rest = frames(rs.skip(1));
+        assert(storable(rs[0]));
+        lemma_frame_head(r, rest);
+        let n = bincode::ser(r).len() as int;
+        let b = frames(rs).take(k);
+        if k < 4 + n {
+            if k >= 4 {
+                assert(b.subrange(0, 4) =~= (frame(r) + rest).subrange(0, 4));
+            }
+            assert(rs.take(0) =~= Seq::<WalRecord>::empty());
+            assert(rs.take(1).skip(1) =~= Seq::<WalRecord>::empty());
+            assert(rs.take(1)[0] == r);
+            assert(frames(Seq::<WalRecord>::empty()) =~= Seq::<u8>::empty());
+            assert(frames(rs.take(1).skip(1)) =~= Seq::<u8>::empty());
+            assert(frames(rs.take(1)) =~= frame(r) + Seq::<u8>::empty());
+            0
+        } else {
+            assert(b.subrange(0, 4) =~= (frame(r) + rest).subrange(0, 4));
+            assert(b.subrange(4, 4 + n) =~= (frame(r) + rest).subrange(4, 4 + n));
+            assert(b.subrange(4 + n, b.len() as int) =~= rest.take(k - 4 - n));
+            bincode::axiom_roundtrip(r);
+            assert(all_storable(rs.skip(1))) by { assert forall|i: int| 0 <= i < rs.skip(1).len() implies storable(#[trigger] rs.skip(1)[i]) by { assert(rs.skip(1)[i] == rs[i + 1]); } }
+            let j1 = theorem_torn_tail_is_end_of_log(rs.skip(1), k - 4 - n);
+            assert(seq![r] + rs.skip(1).take(j1) =~= rs.take(j1 + 1));
+            assert(rs.take(j1 + 1).skip(1) =~= rs.skip(1).take(j1));
+            assert(rs.take(j1 + 1)[0] == r);
+            if j1 + 1 < rs.len() {
+                assert(rs.take(j1 + 2).skip(1) =~= rs.skip(1).take(j1 + 1));
+                assert(rs.take(j1 + 2)[0] == r);
+            }
+            j1 + 1
+        }
+    }
+}
 
 } // verus!
 fn main() {}
